@@ -33,11 +33,13 @@ import (
 //   - within the bound the statement of the property in full: every text piece present, in
 //     document order, in Text(), Markdown() and Document(); spans as authored; the spaces of
 //     text:s as many as written;
-//   - beyond the bound what the repair documents, and no crash: a DOCX package is refused by
-//     Open with an error (and tabula.Open(f).Text() returns it); an ODT element the decoder
-//     gives up in is dropped - the text pieces BEFORE it must still be there, in order; a space
-//     run is 1024 spaces long; the cells of a table over the grid limit all span 1 x 1 and
-//     every cell text is still there, in order;
+//   - beyond the bound what the repair documents, and no crash: a DOCX or ODT package whose
+//     inline containers nest too deep is refused by Open with an error (and
+//     tabula.Open(f).Text() returns it) - a document is presented in full or not at all, never
+//     cut short without a word; a space run is 1024 spaces long; the cells of a table over the
+//     grid limit all span 1 x 1 and every cell text is still there, in order; the columns an
+//     ODT table DECLARES size the grid of Document() only while rows x declared columns stay
+//     within 2^20, else the grid is as wide as the widest row;
 //   - in every case the full correspondence with the Lean model (ops c16.docx / c16.odt,
 //     the views and the API ops; a refused package answers "err" on both sides).
 
@@ -51,13 +53,15 @@ const (
 
 // bexpect is what the oracles demand of one bound document.
 type bexpect struct {
-	Refused bool     // docx.Open must fail (and only then)
+	Refused bool     // docx.Open / odt.Open must fail (and only then)
 	Want    []string // text pieces that must be present, in this order, in every view
 	// Between: for a pair of adjacent tokens the exact text that stands between them in
 	// Text() (text:s runs)
 	Between map[[2]string]string
 	// Spans: the spans Document() must report for the table cell holding the token
 	Spans map[string][2]int // token -> (colSpan, rowSpan)
+	// GridCols: the number of columns of the (single) table of Document(); 0 = not demanded
+	GridCols int
 }
 
 type bspec struct {
@@ -299,24 +303,18 @@ func odtDepthSpecs() []bspec {
 		out = append(out, bspec{Name: "odt-spans-in-body-paragraph:" + depthName(k), F: "odt", Seq: "TMDP",
 			Build: func() (*Node, *Node, []*Node, bexpect) {
 				kids, toks := deepOdtInline(k, "N")
-				want := []string{"B001x"}
-				if k <= inlineBound {
-					want = append(append(want, toks...), "B002x")
-				}
-				return odtContent(tpara("B001x"), E("text:p", kids...), tpara("B002x")), nil, nil, bexpect{Want: want}
+				want := append(append([]string{"B001x"}, toks...), "B002x")
+				return odtContent(tpara("B001x"), E("text:p", kids...), tpara("B002x")), nil, nil, bexpect{Refused: k > inlineBound, Want: want}
 			}})
 	}
 	for _, k := range []int{inlineBound, inlineBound + 1} {
 		k := k
-		within := k <= inlineBound
 		out = append(out, bspec{Name: "odt-spans-in-heading:" + depthName(k), F: "odt", Seq: "TMDP",
 			Build: func() (*Node, *Node, []*Node, bexpect) {
 				kids, toks := deepOdtInline(k, "H")
-				want := []string{"B001x"}
-				if within {
-					want = append(append(want, toks...), "B002x")
-				}
-				return odtContent(tpara("B001x"), E("text:h", kids...).A("text:outline-level", "2"), tpara("B002x")), nil, nil, bexpect{Want: want}
+				want := append(append([]string{"B001x"}, toks...), "B002x")
+				return odtContent(tpara("B001x"), E("text:h", kids...).A("text:outline-level", "2"), tpara("B002x")), nil, nil,
+					bexpect{Refused: k > inlineBound, Want: want}
 			}})
 		out = append(out, bspec{Name: "odt-spans-in-list-item-paragraph:" + depthName(k), F: "odt", Seq: "TMDP",
 			Build: func() (*Node, *Node, []*Node, bexpect) {
@@ -324,11 +322,8 @@ func odtDepthSpecs() []bspec {
 				list := E("text:list", E("text:list-item", tpara("B003x")),
 					E("text:list-item", E("text:p", kids...), E("text:list", E("text:list-item", tpara("B004x")))),
 					E("text:list-item", tpara("B005x")))
-				want := []string{"B001x"}
-				if within {
-					want = append(append(append(want, "B003x"), toks...), "B004x", "B005x", "B002x")
-				}
-				return odtContent(tpara("B001x"), list, tpara("B002x")), nil, nil, bexpect{Want: want}
+				want := append(append([]string{"B001x", "B003x"}, toks...), "B004x", "B005x", "B002x")
+				return odtContent(tpara("B001x"), list, tpara("B002x")), nil, nil, bexpect{Refused: k > inlineBound, Want: want}
 			}})
 		out = append(out, bspec{Name: "odt-spans-in-table-cell-paragraph:" + depthName(k), F: "odt", Seq: "TMDLP",
 			Build: func() (*Node, *Node, []*Node, bexpect) {
@@ -336,22 +331,134 @@ func odtDepthSpecs() []bspec {
 				tbl := E("table:table", E("table:table-column").A("table:number-columns-repeated", "2"),
 					E("table:table-header-rows", E("table:table-row", E("table:table-cell", tpara("B003x")), E("table:table-cell", E("text:p", kids...)))),
 					E("table:table-row", E("table:table-cell", tpara("B004x")), E("table:table-cell", tpara("B005x")))).A("table:name", "T1")
-				want := []string{"B001x"}
-				if within {
-					want = append(append(append(want, "B003x"), toks...), "B004x", "B005x", "B002x")
-				}
-				return odtContent(tpara("B001x"), tbl, tpara("B002x")), nil, nil, bexpect{Want: want}
+				want := append(append([]string{"B001x", "B003x"}, toks...), "B004x", "B005x", "B002x")
+				return odtContent(tpara("B001x"), tbl, tpara("B002x")), nil, nil, bexpect{Refused: k > inlineBound, Want: want}
 			}})
 	}
-	// beyond the bound the reader goes on behind the refused start tag: block elements that
-	// stand there (not valid ODF, but a tree all the same) are read as body elements
+	// the deep paragraph as the very first element: before the repair Text() was "" with no error
+	out = append(out, bspec{Name: "odt-spans-in-first-body-paragraph:bound+1", F: "odt", Seq: "TMDP",
+		Build: func() (*Node, *Node, []*Node, bexpect) {
+			kids, _ := deepOdtInline(inlineBound+1, "N")
+			return odtContent(E("text:p", kids...), tpara("B002x")), nil, nil, bexpect{Refused: true}
+		}})
+	// block elements behind the refused start tag (not valid ODF, but a tree all the same): before
+	// the repair the reader went on behind that tag and read them as body elements
 	out = append(out, bspec{Name: "odt-spans-in-body-paragraph:bound+1-with-blocks-behind-the-refused-tag", F: "odt", Seq: "TMDP",
 		Build: func() (*Node, *Node, []*Node, bexpect) {
 			inner := []*Node{T("Nmidx"), tpara("B003x"), E("text:list", E("text:list-item", tpara("B004x")))}
 			post := map[int][]*Node{inlineBound: {tpara("B005x")}, 3: {E("text:h", T("B006x")).A("text:outline-level", "1")}}
 			kids := nestWith(odtWraps, inlineBound+1, inner, nil, post)
-			return odtContent(tpara("B001x"), E("text:p", kids...), tpara("B002x")), nil, nil, bexpect{Want: []string{"B001x"}}
+			return odtContent(tpara("B001x"), E("text:p", kids...), tpara("B002x")), nil, nil, bexpect{Refused: true}
 		}})
+	// a section around the deep paragraph, and a nest inside a skipped inline element (a note):
+	// the first is refused, the second is not decoded at all and harmless
+	out = append(out, bspec{Name: "odt-spans-in-paragraph-of-a-section:bound+1", F: "odt", Seq: "TMDP",
+		Build: func() (*Node, *Node, []*Node, bexpect) {
+			kids, _ := deepOdtInline(inlineBound+1, "N")
+			return odtContent(tpara("B001x"), E("text:section", tpara("B003x"), E("text:p", kids...)).A("text:name", "S1"), tpara("B002x")), nil, nil,
+				bexpect{Refused: true}
+		}})
+	out = append(out, bspec{Name: "odt-spans-inside-a-skipped-note:bound+1", F: "odt", Seq: "TMDP",
+		Build: func() (*Node, *Node, []*Node, bexpect) {
+			kids, _ := deepOdtInline(inlineBound+1, "X")
+			p := E("text:p", T("B003x"), E("text:note", E("text:note-body", E("text:p", kids...))), T("B004x"))
+			return odtContent(tpara("B001x"), p, tpara("B002x")), nil, nil, bexpect{Want: []string{"B001x", "B003x", "B004x", "B002x"}}
+		}})
+	return out
+}
+
+// declSpecs: ODT tables whose <table:table-column> elements DECLARE more columns than the rows
+// hold. Each repetition count is bounded by 1024, the number of column elements is not; the
+// document model sizes its grid by the declared columns only while rows x declared columns
+// stay within 2^20 (integer division in the code), else by the widest row.
+type declShape struct {
+	Rows, ColElems, Repeat, Extra int // Extra: one more column element repeated Extra times
+	Thorough                      bool
+}
+
+func (d declShape) declared() int { return d.ColElems*d.Repeat + d.Extra }
+
+func (d declShape) believed() bool { return d.declared() == 0 || d.Rows <= gridBound/d.declared() }
+
+func (d declShape) name() string {
+	rel := "over-the-limit"
+	switch {
+	case d.declared() == 0:
+		rel = "none-declared"
+	case d.Rows == gridBound/d.declared():
+		rel = "at-the-limit"
+	case d.Rows == gridBound/d.declared()+1:
+		rel = "limit+1"
+	case d.Rows < gridBound/d.declared():
+		rel = "under-the-limit"
+	}
+	return fmt.Sprintf("odt-declared-columns-%drows-x-%dcolumns(%dx%d+%d):%s", d.Rows, d.declared(), d.ColElems, d.Repeat, d.Extra, rel)
+}
+
+func declSpecs() []bspec {
+	shapes := []declShape{
+		{Rows: 3, ColElems: 1, Repeat: 5},                       // a few declared columns more than cells: believed
+		{Rows: 1024, ColElems: 1, Repeat: 1024},                 // rows x declared = 2^20 exactly: believed
+		{Rows: 1025, ColElems: 1, Repeat: 1024},                 // one row more
+		{Rows: 1024, ColElems: 1, Repeat: 1024, Extra: 1},       // one column more
+		{Rows: 1048, ColElems: 1, Repeat: 1000},                 // 2^20 / 1000 = 1048 (integer division)
+		{Rows: 1049, ColElems: 1, Repeat: 1000},                 //
+		{Rows: 128, ColElems: 128, Repeat: 1024},                // the quoted document: 16.7 million cells if believed
+		{Rows: 300, ColElems: 300, Repeat: 1024},                // 92 million
+		{Rows: 2, ColElems: 2000, Repeat: 1024, Thorough: true}, // two rows under two million declared columns
+		{Rows: 1, ColElems: 1024, Repeat: 1024},                 // one row x 2^20 columns: believed (a grid of 2^20 cells)
+	}
+	var out []bspec
+	for _, d := range shapes {
+		d := d
+		seq, noAPI := "TMDLP", false
+		if d.believed() && d.Rows*d.declared() > 300000 {
+			seq, noAPI = "TP", true // the believed grid is a million cells: its full dump is compared once only
+			if d.Rows == 1024 && d.Repeat == 1024 && d.Extra == 0 {
+				seq = "TL"
+			}
+		}
+		out = append(out, bspec{Name: d.name(), F: "odt", Seq: seq, Thorough: d.Thorough, NoAPI: noAPI,
+			Build: func() (*Node, *Node, []*Node, bexpect) {
+				ex := bexpect{Want: []string{"B001x"}, Spans: map[string][2]int{}}
+				tbl := E("table:table").A("table:name", "D")
+				for i := 0; i < d.ColElems; i++ {
+					col := E("table:table-column")
+					if d.Repeat != 1 {
+						col.A("table:number-columns-repeated", fmt.Sprint(d.Repeat))
+					}
+					tbl.Add(col)
+				}
+				if d.Extra > 0 {
+					tbl.Add(E("table:table-column").A("table:number-columns-repeated", fmt.Sprint(d.Extra)))
+				}
+				widest := 0
+				for r := 0; r < d.Rows; r++ {
+					row := E("table:table-row")
+					n := 1
+					if r%5 == 1 {
+						n = 2
+					}
+					if r == 2 {
+						n = 3
+					}
+					for i := 0; i < n; i++ {
+						tok := fmt.Sprintf("D%04dc%dx", r, i)
+						row.Add(E("table:table-cell", tpara(tok)))
+						ex.Want = append(ex.Want, tok)
+						ex.Spans[tok] = [2]int{1, 1}
+					}
+					widest = max(widest, n)
+					tbl.Add(row)
+				}
+				ex.GridCols = widest
+				if d.believed() && d.declared() > 0 {
+					ex.GridCols = d.declared()
+				}
+				ex.Want = append(ex.Want, "B002x")
+				return odtContent(tpara("B001x"), tbl, tpara("B002x")), nil, nil, ex
+			}})
+	}
 	return out
 }
 
@@ -428,7 +535,7 @@ func gridSpecs(F string) []bspec {
 		{Rows: 1023, N: 1, CS: 1024}, {Rows: 1024, N: 1, CS: 1024}, {Rows: 1025, N: 1, CS: 1024},
 		{Rows: 1048, N: 1, CS: 1000}, {Rows: 1049, N: 1, CS: 1000}, // 2^20 / 1000 = 1048 (integer division)
 		{Rows: 2048, N: 2, CS: 256}, {Rows: 2049, N: 2, CS: 256},
-		{Rows: 2000, N: 10, CS: 1024},            // far beyond: a grid of twenty million cells if believed
+		{Rows: 2000, N: 10, CS: 1024},                // far beyond: a grid of twenty million cells if believed
 		{Rows: 1100, N: 1000, CS: 1, Thorough: true}, // no spans: left alone whatever its size
 		{Rows: 40, N: 30, CS: 1},
 	}
@@ -439,7 +546,7 @@ func gridSpecs(F string) []bspec {
 		shapes = append(shapes, gridShape{Rows: 1024, N: 1, CS: 1024, RS: 16}, gridShape{Rows: 1025, N: 1, CS: 1024, RS: 16},
 			gridShape{Rows: 4096, N: 4, CS: 64, RS: 1024}, gridShape{Rows: 4097, N: 4, CS: 64, RS: 1024},
 			gridShape{Rows: 1024, N: 1, CS: 1024, RS: 1024, Thorough: true}, // one Mi cells, all but one covered placeholders
-			gridShape{Rows: 1024, N: 8, CS: 1024, RS: 1024})                  // the quoted document: eight million if believed
+			gridShape{Rows: 1024, N: 8, CS: 1024, RS: 1024})                 // the quoted document: eight million if believed
 	}
 	var out []bspec
 	for _, g := range shapes {
@@ -546,6 +653,7 @@ func boundSpecs() []bspec {
 	out = append(out, spaceSpecs()...)
 	out = append(out, gridSpecs("docx")...)
 	out = append(out, gridSpecs("odt")...)
+	out = append(out, declSpecs()...)
 	return out
 }
 
@@ -652,17 +760,23 @@ func RunBound(c *hx.Ctx, idx int, keep bool) {
 	if ex.Refused {
 		// beyond the bound: refused as documented, through both entry points
 		c.Check(pre+"not-refused", openErr != nil && apiErr != nil, kase, func() string {
-			return fmt.Sprintf("%s: inline containers nest deeper than %d levels, Open must return an error; docx.Open: %v, tabula.Open(f): %v", sp.Name, inlineBound, openErr, apiErr)
+			return fmt.Sprintf("%s: inline containers nest deeper than %d levels, Open must return an error (never a document cut short); %s.Open: %v, tabula.Open(f): %v; Text() = %s",
+				sp.Name, inlineBound, F, openErr, apiErr, clip(fmt.Sprintf("%q", out.Text)))
 		})
 		if openErr == nil {
 			c.Case("bound:"+sp.Name, false)
 			return
 		}
 		c.Op(opLine, "err")
-		c.Op(fmt.Sprintf("c16.docx.views %s %s %s %s %s %s %s", dpkg.Doc.Sexp(), sexpOrDash(dpkg.Styles), sexpOrDash(dpkg.Numbering),
-			treesField(dpkg.Headers), treesField(dpkg.Footers), sp.Opts.field(), sp.Seq), "err")
-		c.Op("c16.docx.cached "+dpkg.Doc.Sexp()+" "+sexpOrDash(dpkg.Styles), "err")
-		c.Op(fmt.Sprintf("c16.docx.api %s 0 0", docxModelArgs(dpkg)), "err")
+		if F == "docx" {
+			c.Op(fmt.Sprintf("c16.docx.views %s %s %s %s %s %s %s", dpkg.Doc.Sexp(), sexpOrDash(dpkg.Styles), sexpOrDash(dpkg.Numbering),
+				treesField(dpkg.Headers), treesField(dpkg.Footers), sp.Opts.field(), sp.Seq), "err")
+			c.Op("c16.docx.cached "+dpkg.Doc.Sexp()+" "+sexpOrDash(dpkg.Styles), "err")
+			c.Op(fmt.Sprintf("c16.docx.api %s 0 0", docxModelArgs(dpkg)), "err")
+		} else {
+			c.Op(fmt.Sprintf("c16.odt.views %s %s %s %s", opkg.Content.Sexp(), sexpOrDash(opkg.Styles), sp.Opts.field(), sp.Seq), "err")
+			c.Op(fmt.Sprintf("c16.odt.api %s 0 0", odtModelArgs(opkg)), "err")
+		}
 		c.Count("bound-document-refused-by-Open")
 		c.Case("bound:"+sp.Name, false)
 		return
@@ -729,6 +843,23 @@ func RunBound(c *hx.Ctx, idx int, keep bool) {
 		}
 		c.Check(pre+"grid-cell-missing", seen == len(ex.Spans), kase, func() string {
 			return fmt.Sprintf("%s: Document() holds %d of the %d authored cells", sp.Name, seen, len(ex.Spans))
+		})
+	}
+	if ex.GridCols > 0 {
+		cols, rows, cells := -1, 0, 0
+		for _, e := range flatten(mdoc) {
+			if e.Tbl != nil {
+				rows = len(e.Tbl.Rows)
+				cols = 0
+				for _, row := range e.Tbl.Rows {
+					cols = max(cols, len(row))
+					cells += len(row)
+				}
+			}
+		}
+		c.Check(pre+"declared-columns-grid", cols == ex.GridCols, kase, func() string {
+			return fmt.Sprintf("%s: the table of Document() is %d rows x %d columns (%d cells); wanted %d columns - the declared columns size the grid only while rows x declared columns <= %d, else the widest row does",
+				sp.Name, rows, cols, cells, ex.GridCols, gridBound)
 		})
 	}
 	c.Count("bound-document-opened")
